@@ -54,6 +54,7 @@ enum Kind {
     LogStmt,
     TupleAssign { elems: Vec<String>, rhs: String },
     RangeIdxCall { method: String, base: Rng, base_txt: String },
+    BorrowMutIdx { recv: Rng },
     Attr,
     Vis,
     Ident { name: String },
@@ -161,6 +162,11 @@ impl<'ast, 's> Visit<'ast> for Collect<'s> {
     }
     fn visit_expr_method_call(&mut self, n: &'ast syn::ExprMethodCall) {
         self.push(Kind::Call { name: n.method.to_string() }, rng(n));
+        if n.method == "borrow_mut" && n.args.is_empty() {
+            if let syn::Expr::Index(_) = &*n.receiver {
+                self.push(Kind::BorrowMutIdx { recv: rng(&*n.receiver) }, rng(n));
+            }
+        }
         if let syn::Expr::Index(ix) = &*n.receiver {
             if matches!(&*ix.index, syn::Expr::Range(_)) {
                 let b = rng(&*ix.expr);
@@ -455,6 +461,10 @@ fn resolve_anchor(loc: &Located, path: &str, what: &str) -> usize {
                 die(&format!("{what}: anchor `{path}`: `end` on a non-block scope"));
             }
             return scope.hi - 1;
+        } else if *p == "start" && last {
+            return cur.as_ref().unwrap_or_else(|| fail()).r.lo;
+        } else if *p == "stop" && last {
+            return cur.as_ref().unwrap_or_else(|| fail()).r.hi;
         } else if *p == "before" && last {
             return cur_stmt.unwrap_or_else(|| fail()).lo;
         } else if *p == "after" && last {
@@ -493,11 +503,13 @@ struct ItemSpec {
     derive_set: Option<String>,
     frag: Option<(String, String, String, String)>, // start anchor, end anchor, header, tail
     tag: Option<String>,
+    identity_borrow_mut: bool,
 }
 
 #[derive(Debug)]
 enum Cmd {
     Use(String),
+    Plain,
     Text(String, usize),
     Source(String),
     Subst(String, String),
@@ -601,6 +613,7 @@ fn parse_unit(text: &str, what: &str) -> Vec<Cmd> {
         };
         match word {
             "use" => cmds.push(Cmd::Use(rest.to_string())),
+            "plain" => cmds.push(Cmd::Plain),
             "text" => {
                 let ln = i + 1;
                 let b = block(&lines, &mut i, rest, what);
@@ -624,7 +637,8 @@ fn parse_unit(text: &str, what: &str) -> Vec<Cmd> {
                 let mut p = rest.splitn(3, char::is_whitespace);
                 let a = p.next().unwrap_or("").to_string();
                 let b = p.next().unwrap_or("").to_string();
-                let r = p.next().unwrap_or("");
+                let r = p.next().unwrap_or("").trim();
+                let r = r.strip_prefix("header").unwrap_or(r);
                 let h = block(&lines, &mut i, r, what);
                 cur_item(&mut cmds, what, i, word).frag = Some((a, b, h, String::from("}")));
             }
@@ -666,6 +680,7 @@ fn parse_unit(text: &str, what: &str) -> Vec<Cmd> {
                 let b = block(&lines, &mut i, rest, what);
                 cur_item(&mut cmds, what, i, word).attr = Some(b);
             }
+            "identity-borrow-mut" => cur_item(&mut cmds, what, i, word).identity_borrow_mut = true,
             "rename" => cur_item(&mut cmds, what, i, word).rename = Some(rest.to_string()),
             "mutself" => cur_item(&mut cmds, what, i, word).mutself = Some(rest.to_string()),
             "drop-generic" => cur_item(&mut cmds, what, i, word).drop_generics.push(rest.to_string()),
@@ -770,16 +785,22 @@ fn main() {
             uses.push(u.clone());
         }
     }
-    let mut header = String::from("// GENERATED by vx from /repo on every run — do not edit\n#![allow(unused)]\nuse vstd::prelude::*;\n");
+    let plain = cmds.iter().any(|c| matches!(c, Cmd::Plain));
+    let mut header = String::from("// GENERATED by vx from /repo on every run — do not edit\n#![allow(unused)]\n");
+    if !plain {
+        header.push_str("use vstd::prelude::*;\n");
+    }
     for u in &uses {
         let _ = writeln!(header, "use {u};");
     }
-    header.push_str("verus! {\n");
+    if !plain {
+        header.push_str("verus! {\n");
+    }
     body.push(&header);
 
     for c in cmds {
         match c {
-            Cmd::Use(_) => {}
+            Cmd::Use(_) | Cmd::Plain => {}
             Cmd::Text(t, ln) => {
                 let start = body.line;
                 body.push(&t);
@@ -828,7 +849,9 @@ fn main() {
                 let src_line1 = src.text[..loc.whole.hi].matches('\n').count() + 1;
                 items_log.push(json!({
                     "selector": spec.selector.join(" "),
-                    "name": spec.tag.clone().unwrap_or_else(|| spec.rename.clone().unwrap_or_else(|| spec.selector.last().cloned().unwrap_or_default())),
+                    "name": qname(&spec),
+                    "kind": spec.selector.first().cloned().unwrap_or_default(),
+                    "has_contract": spec.contract.is_some(),
                     "source": rel,
                     "src_lines": [src_line0, src_line1],
                     "src_bytes": [loc.whole.lo, loc.whole.hi],
@@ -842,7 +865,9 @@ fn main() {
             }
         }
     }
-    body.push("} // verus!\nfn main() {}\n");
+    if !plain {
+        body.push("} // verus!\nfn main() {}\n");
+    }
     std::fs::write(out_rs, &body.text).unwrap_or_else(|e| die(&format!("{out_rs}: {e}")));
     let log = json!({
         "unit": unit_path,
@@ -852,6 +877,20 @@ fn main() {
         "texts": texts_log,
     });
     std::fs::write(out_json, serde_json::to_string_pretty(&log).unwrap()).unwrap_or_else(|e| die(&format!("{out_json}: {e}")));
+}
+
+fn qname(spec: &ItemSpec) -> String {
+    if let Some(t) = &spec.tag {
+        return t.clone();
+    }
+    let s: Vec<&str> = spec.selector.iter().map(|x| x.as_str()).collect();
+    let last = spec.rename.clone().unwrap_or_else(|| s.last().map(|x| x.to_string()).unwrap_or_default());
+    match s.as_slice() {
+        ["impl", ty, "fn", _] => format!("{ty}::{last}"),
+        ["impl", tr, "for", _, "fn", _] => format!("{tr}::{last}"),
+        ["trait", tr, "fn", _] => format!("{tr}::{last}(decl)"),
+        _ => last,
+    }
 }
 
 /// Returns (emitted text, edits log, splices as (tag, first line offset, last line offset) within the emitted text)
@@ -870,7 +909,7 @@ fn emit_item(
         seq += 1;
         edits.push(Edit { lo, hi, new, rule: rule.to_string(), tag, seq });
     };
-    let fname = spec.tag.clone().unwrap_or_else(|| spec.rename.clone().unwrap_or_else(|| spec.selector.last().cloned().unwrap_or_default()));
+    let fname = qname(spec);
 
     // the region that is emitted: whole item, or a fragment of the body
     let mut region = loc.whole;
@@ -927,6 +966,13 @@ fn emit_item(
             Kind::RangeIdxCall { method, base, base_txt } => {
                 if method == "copy_from_slice" && vecplaces.iter().any(|p| p == base_txt) {
                     add(&mut edits, base.hi, base.hi, ".as_mut_slice()".to_string(), "R10-as_mut_slice", None);
+                }
+            }
+            Kind::BorrowMutIdx { recv } => {
+                // R13: `place[i].borrow_mut()` through the blanket `impl<T> BorrowMut<T> for T` is `&mut place[i]`
+                if spec.identity_borrow_mut {
+                    add(&mut edits, recv.lo, recv.lo, "(&mut ".to_string(), "R13-identity-borrow_mut", None);
+                    add(&mut edits, recv.hi, n.r.hi, ")".to_string(), "R13-identity-borrow_mut", None);
                 }
             }
             Kind::Ident { name } => {
